@@ -63,11 +63,18 @@ func (lrw *limitedResponseWriter) checkLimit(b []byte) error {
 		Str("type", "response").
 		Msg("response body size limit exceeded")
 
-	// If headers haven't been written yet, set the 413 status
+	// If headers haven't been written yet, answer 413 instead. The handler's own
+	// Content-Length no longer applies, and the (empty) 413 is flushed at once: a reverse
+	// proxy reacts to the failed Write by aborting the connection, which would otherwise
+	// discard the still buffered status line.
 	if !lrw.wroteHeader {
 		lrw.statusCode = http.StatusRequestEntityTooLarge
+		lrw.Header().Set("Content-Length", "0")
 		lrw.ResponseWriter.WriteHeader(http.StatusRequestEntityTooLarge)
 		lrw.wroteHeader = true
+		if f, ok := lrw.ResponseWriter.(http.Flusher); ok {
+			f.Flush()
+		}
 	}
 
 	return fmt.Errorf("response body exceeds limit of %d bytes", lrw.limit)
